@@ -190,7 +190,7 @@ def run(ctx: common.Ctx) -> None:
     quick = ctx.tier == "quick"
     scale = float(os.environ.get("VERIF_SCALE", "1"))
     n_std: int | None
-    n_std, n_corpus, n_gen, flips = (60, 300, 4, 2) if quick else (None, 100000, 16, 4)
+    n_std, n_corpus, n_gen, flips = (90, 450, 4, 2) if quick else (None, 100000, 16, 4)
     if scale != 1:
         n_std = max(3, int((n_std if n_std is not None else 800) * scale))
         n_corpus = max(4, int(min(n_corpus, 6000) * scale))
